@@ -226,9 +226,12 @@ func (api *HTTP) handleStatus(res http.ResponseWriter, req *http.Request) {
 
 	// GetSessions locks sessionsMu, which must not be acquired while holding
 	// ConfigMu (lock order: sessionsMu before ConfigMu).
-	sessions := api.ircServer().GetSessions()
-	api.ircServer().ConfigMu.RLock()
-	defer api.ircServer().ConfigMu.RUnlock()
+	// FSM.Restore replaces the IRC server: use one and the same instance for
+	// the lock and for what it protects.
+	i := api.ircServer()
+	sessions := i.GetSessions()
+	i.ConfigMu.RLock()
+	defer i.ConfigMu.RUnlock()
 	args := struct {
 		Addr               string
 		State              raft.RaftState
@@ -247,7 +250,7 @@ func (api *HTTP) handleStatus(res http.ResponseWriter, req *http.Request) {
 		Stats:              api.raftNode.Stats(),
 		Sessions:           sessions,
 		GetMessageRequests: api.copyGetMessagesRequests(),
-		NetConfig:          api.ircServer().Config,
+		NetConfig:          i.Config,
 		CurrentLink:        "/status",
 	}
 
